@@ -28,6 +28,14 @@ from .common import REPO, VERIF, MachineryError
 # worker side
 # ------------------------------------------------------------------------------------------------
 
+COMPILE_TIMEOUT = int(os.environ.get("VERIF_COMPILE_TIMEOUT", "90"))
+MEMORY_LIMIT = 3 * 2 ** 30
+
+
+class CompileTimeout(BaseException):
+    pass
+
+
 class Ctx:
     def __init__(self, out_path):
         from . import pipe_probe, pipe_inputs
@@ -55,9 +63,28 @@ class Ctx:
         return self.corpus
 
     def compile(self, files, main, tid, **kw):
-        ev, out = self.pp.traced_compile(self.P, files, main, tid=tid, prelude_text=self.prelude, **kw)
-        if kw.get("keep_input"):
-            pass
+        """One traced compilation under a CPU-time watchdog: a compilation that does not finish within
+        COMPILE_TIMEOUT seconds is recorded as a Timeout event (Total: "compilation terminates")."""
+        import signal
+
+        def on_alarm(sig, frm):
+            raise CompileTimeout()
+
+        old = signal.signal(signal.SIGALRM, on_alarm)
+        signal.alarm(COMPILE_TIMEOUT)
+        try:
+            ev, out = self.pp.traced_compile(self.P, files, main, tid=tid, prelude_text=self.prelude, **kw)
+        except CompileTimeout:
+            self.P.on = False
+            ev, out = list(self.P.events), {}
+            ev.append({"ev": "Timeout", "tid": tid, "job": "", "limit_s": COMPILE_TIMEOUT})
+        except MemoryError:
+            self.P.on = False
+            ev, out = list(self.P.events), {}
+            ev.append({"ev": "Exception", "type": "MemoryError", "site": "MemoryError@address-space-limit", "stage": "?"})
+        finally:
+            signal.alarm(0)
+            signal.signal(signal.SIGALRM, old)
         self.write(ev)
         return ev, out
 
@@ -66,7 +93,7 @@ def c16_inputs(ctx, job):
     """Yields (tid, files, main) for a C16 job descriptor."""
     pi = ctx.pi
     fam, seed = job["fam"], job["seed"]
-    if fam in ("bytes", "soup", "gram", "nest", "imports", "sent"):
+    if fam in ("bytes", "soup", "gram", "nest", "imports", "sent", "valid"):
         for idx in range(job["start"], job["start"] + job["count"]):
             r = pi.rng_for(seed, fam, idx)
             tid = "%s:%d" % (fam, idx)
@@ -76,6 +103,8 @@ def c16_inputs(ctx, job):
                 yield tid, {"m.emb": pi.gen_soup(r)}, "m.emb"
             elif fam == "nest":
                 yield tid, {"m.emb": pi.gen_nest(r)}, "m.emb"
+            elif fam == "valid":
+                yield tid, {"m.emb": pi.gen_valid(r)}, "m.emb"
             elif fam == "imports":
                 files, main = pi.gen_import_set(r)
                 yield tid, files, main
@@ -121,7 +150,7 @@ def regenerate_input(tid, seed):
     ctx = Ctx(os.devnull)
     parts = tid.split(":")
     fam = parts[0]
-    if fam in ("bytes", "soup", "gram", "nest", "imports", "sent"):
+    if fam in ("bytes", "soup", "gram", "nest", "imports", "sent", "valid"):
         job = {"fam": fam, "seed": seed, "start": int(parts[1]), "count": 1}
     elif fam == "corpus":
         job = {"fam": fam, "seed": seed, "names": [":".join(parts[1:])]}
@@ -230,13 +259,20 @@ def run_schedule(ctx, job):
                     try:
                         os.close(w1)
                         os.close(r2)
+                        for _pid, _fw, _fr in children.values():   # ends of the siblings' pipes
+                            try:
+                                os.close(_fw.fileno())
+                                os.close(_fr.fileno())
+                            except OSError:
+                                pass
                         ctx.out = open(ctx.out_path, "a", encoding="utf-8")
                         fin = os.fdopen(r1, "r")
                         fout = os.fdopen(w2, "w")
                         ctx.write([{"ev": "Start", "seed": ctx.seedenv, "proc": "%s/%s#%d" % (job["tid"], p, inc)}])
                         for line in fin:
                             s = json.loads(line)
-                            ctx.compile(s["files"], s["main"], s["tid"], mode=s["mode"], key=s["key"], want_outputs=True)
+                            ctx.compile(None, s["main"], s["tid"], mode=s["mode"], key=s["key"], want_outputs=True,
+                                        dirs=s["dirs"])
                             fout.write("ok\n")
                             fout.flush()
                         ctx.write([{"ev": "Exit"}])
@@ -257,6 +293,7 @@ def run_schedule(ctx, job):
                 fw.close()
             except Exception:
                 pass
+        for pid, fw, fr in children.values():
             os.waitpid(pid, 0)
             fr.close()
 
@@ -282,7 +319,13 @@ def run_ir_job(ctx, job):
                 top = {"kind": "top", "id": rid, "json1": "-", "json2": "-", "header1": "-", "header2": "-",
                        "nmod1": 0, "nmod2": 0, "nmodj": 0, "extra": [], "exc": "", "accepted": False}
                 try:
-                    ir, _dbg, errors = P.glue.parse_emboss_file(main, rd, stop_before_step=stop)
+                    try:
+                        ir, _dbg, errors = P.glue.parse_emboss_file(main, rd, stop_before_step=stop)
+                    except Exception as e:
+                        # a crashing front end produces no IR: that is C16's subject, not C18's
+                        top["front_end_crashed"] = ctx.pp.exc_site(e)
+                        out.write(json.dumps(top) + "\n")
+                        continue
                     if errors or ir is None:
                         top["exc"] = ""
                         top["rejected"] = True
@@ -325,9 +368,24 @@ def run_ir_job(ctx, job):
 
 
 def worker_main(argv):
+    try:
+        import resource
+        resource.setrlimit(resource.RLIMIT_AS, (MEMORY_LIMIT, MEMORY_LIMIT))
+    except Exception:
+        pass
     out_path = argv[0]
     ctx = Ctx(out_path)
     pristine = "--pristine" in argv
+    if pristine:
+        # children are forked from this interpreter: keep the garbage collector from touching (and so
+        # copying) the 0.5 GB of parser tables in every child
+        # ... and load the LR tables now (tokenize + parse the empty text through the public entry
+        # points; touches neither the parse cache nor the anonymous counter) instead of in every child
+        toks, _errs = ctx.tokenize("", "")
+        ctx.P.orig[("compiler.front_end.parser", "parse_module")](toks)
+        import gc
+        gc.collect()
+        gc.freeze()
     if not pristine:
         ctx.write([{"ev": "Start", "seed": ctx.seedenv}])
     sys.stdout.write("ready\n")
